@@ -43,6 +43,7 @@ func init() {
 			{Name: "schema-bodies", Stream: c01StreamSchemaBodies, Eval: c01Eval},
 			{Name: "references", N: constN(6000, 150000), Gen: c09GenReferences, Eval: c01Eval},
 			{Name: "paths", Stream: c01StreamPaths, Eval: c01Eval},
+			{Name: "long-error-lines", Stream: c01StreamLongLines, Eval: c01Eval},
 		},
 		Floors: map[string]int64{"accepted": 500, "rejected": 5000},
 	})
@@ -205,7 +206,13 @@ func c01GenIncludes(r *xrand.Rand, idx int, tier string) *fw.Case {
 			// maybe an include
 			if r.Chance(2, 5) {
 				var target string
-				switch r.Intn(13) {
+				switch r.Intn(15) {
+				case 13:
+					target = "pipe.jst" // a named pipe nobody writes to
+					files["pipe.jst@fifo"] = nil
+				case 14:
+					target = "zero.jst" // a link to a device that never ends
+					files["zero.jst@symlink"] = []byte("/dev/zero")
 				case 10:
 					target = names[r.Intn(len(names))] + "/x.jst" // a path through a regular file: Stat fails with ENOTDIR
 				case 11:
@@ -622,4 +629,45 @@ func c01StreamPaths(t *fw.T, shard, nshards int, emit func(*fw.Case)) {
 		}
 		emit(oneDocCase([]byte(doc), "", "path"))
 	})
+}
+
+
+// c01StreamLongLines: a fault on a line longer than the 200 bytes a diagnostic quotes; the tail of the line is made of
+// letters, multi-byte characters, lone continuation bytes (not UTF-8) or NULs, and the line ends the file with or
+// without a line break.
+func c01StreamLongLines(t *fw.T, shard, nshards int, emit func(*fw.Case)) {
+	tails := [][]byte{[]byte("a"), []byte("é"), {0x80}, {0xbf}, {0xe2, 0x82}, []byte("日"), {0xff}, {0xc3}}
+	heads := []string{
+		"JSIGHT 0.3\nGET /cats // ",                              // (completed below into a duplicate method)
+		"JSIGHT 0.3\nINFO\n  Title \"",                           // unterminated quote
+		"JSIGHT 0.3\nFOO ",                                       // unknown directive
+		"JSIGHT 0.3\nTYPE @t // ",                                // annotation, then no body
+		"JSIGHT 0.3\nURL /a\n  GET\n    200 any\n  GET # ",      // duplicate method in a URL, comment tail
+		"JSIGHT 0.3\nGET /x\n  Description\n    ",               // description text, then nothing
+	}
+	n := 0
+	for hi, h := range heads {
+		for _, tail := range tails {
+			for _, total := range []int{190, 197, 198, 199, 200, 201, 202, 203, 204, 260, 1000} {
+				for _, end := range []string{"", "\n", "\r\n", "\r"} {
+					n++
+					if n%nshards != shard {
+						emit(nil)
+						continue
+					}
+					last := h[strings.LastIndexByte(h, '\n')+1:]
+					line := []byte(last)
+					for len(line) < total {
+						line = append(line, tail...)
+					}
+					doc := append([]byte(h[:len(h)-len(last)]), line...)
+					doc = append(doc, end...)
+					if hi == 0 {
+						doc = append([]byte("JSIGHT 0.3\nGET /cats\n  200 any\n"), doc[len("JSIGHT 0.3\n"):]...)
+					}
+					emit(oneDocCase(doc, "", "long error line"))
+				}
+			}
+		}
+	}
 }
